@@ -15,7 +15,7 @@ package main
 // Because the functions are generated from the type declarations of the tree
 // under test, a field added to or removed from a configuration struct is
 // covered without touching the harness. If the harness declares
-// func zzExpect_<T>(x *T), zzEq_<T> applies it to its first argument first
+// func zzExpect_<id>(x *T) (id: the type name, prefixed with its package name and _ for a type of another package), zzEq_<T> applies it to its first argument first
 // (the documented normalisation a round trip is allowed to perform).
 
 import (
@@ -125,8 +125,8 @@ func (g *typeGen) emit(t types.Type) {
 	hv := func(body string) { w("func zzHv_%s(h *zzHv) (v %s) {\n%s\treturn\n}\n\n", id, te, body) }
 	eq := func(body string) {
 		pre := ""
-		if n, ok := t.(*types.Named); ok && n.Obj().Pkg() == g.pkg && g.hooks[n.Obj().Name()] {
-			pre = fmt.Sprintf("\tzzExpect_%s(&a)\n", n.Obj().Name())
+		if _, ok := t.(*types.Named); ok && g.hooks[id] {
+			pre = fmt.Sprintf("\tzzExpect_%s(&a)\n", id)
 		}
 		w("func zzEq_%s(h *zzHv, a, b %s, p string) {\n%s%s}\n\n", id, te, pre, body)
 	}
@@ -369,7 +369,20 @@ func generate(f *harnessFile, roots []string, scratch string) (*harnessFile, err
 		}
 	}
 	for _, r := range roots {
-		obj := g.pkg.Scope().Lookup(r)
+		scope := g.pkg.Scope()
+		if i := strings.Index(r, "."); i > 0 {
+			scope = nil
+			for _, imp := range g.pkg.Imports() {
+				if imp.Name() == r[:i] {
+					scope = imp.Scope()
+				}
+			}
+			if scope == nil {
+				return nil, fmt.Errorf("verif:gen: %s does not import a package named %s", f.pkg, r[:i])
+			}
+			r = r[i+1:]
+		}
+		obj := scope.Lookup(r)
 		if obj == nil {
 			return nil, fmt.Errorf("verif:gen: no type %s in %s", r, f.pkg)
 		}
